@@ -584,9 +584,10 @@ func (c *c01Case) metaBody(w c01Written) bool {
 
 // an adversary step that does not fit the bytes actually stored (possible only when the code under test wrote
 // something else than the record format) is answered `inapplicable`: a disagreement with the model, never a crash
-func (c *c01Case) inapplicable(fields ...string) {
-	c.out.Op("inapplicable", fields...)
-}
+// inapplicable: the generator drew an adversary step that cannot be carried out on the current physical store (a
+// position beyond the record, a record that does not exist): nothing was done to the implementation, so nothing is
+// written to the trace either (a line would only ask the model about an operation that never happened).
+func (c *c01Case) inapplicable(fields ...string) {}
 
 func (c *c01Case) opFlip(k string, pos int, mask byte) {
 	v := append([]byte{}, c.physGet(k)...)
